@@ -117,9 +117,8 @@ def prepare_unit(scratch, md, drv, mir, tag):
     defs = ["MIR_DIRECT_DISPATCH", 'C20_DUMP="dump.h"', 'C20_EXTIDS="extids.h"', "H_ND_MAX=64", "C04_ARENA_BYTES=256"] + (["C04_HAS_EXT"] if ext else [])
     wraps = [os.path.join(d, "wrap_%s.c" % re.sub(r"\W", "_", m)) for m in acc]
     for c in meta["cases"]:
-        fp = re.search(r"\.c20_(f|d|ld)(add|sub|mul|div)$|\.c20_(u?i2(f|d|ld)|f2d|f2ld|d2f|d2ld|ld2f|ld2d)$", c["name"])
         obs.append(Ob("%s.%s" % (tag, c["name"]), "C20/c20.c", defs=defs, cc=["-I" + d], extra_src=wraps, entry=c["entry"], unwind=40, paths=c["paths"],
-                      object_bits=12, checks="functional", timeout=300, flags=FS_FLAGS + (["--fpa"] if fp else []), solver="z3" if fp else None,
+                      object_bits=12, checks="functional", timeout=300, flags=FS_FLAGS, native_cc=["-fno-sanitize=pointer-overflow"],
                       sample="%s: %s" % (os.path.basename(mir), c["sample"])))
     return obs
 
@@ -167,7 +166,8 @@ META = {
         "negative values) is evaluated with CBMC's two's complement semantics, i.e. as gcc -fwrapv would",
         "interpreter leg as in C04 (real eval/call on mirdump's icode, hand-built context, trampoline replaced by h_ff_common, alloca = arena)",
         "long double is CBMC's binary128 on both legs; pointer-typed results / external arguments compared for null-ness only",
-        "fp arithmetic and int<->fp conversions with symbolic operands are decided by z3 with the floating-point theory (--fpa), everything else by MiniSat",
+        "fp: all bit patterns for add/sub (f, d), neg, moves, comparisons, compare-branches and every conversion; mul/div (f, d) and all long "
+        "double arithmetic on a grid of constants (two copies of an IEEE multiplier/divider: no verdict from the SAT back end in 120 s)",
     ],
 }
 
